@@ -34,6 +34,8 @@ Fails(e) ==
   \o F("number-as-name", num => ~e.unq /\ ~e.pn)
   \o F("keyword-as-unquoted", e.decoded \in {"null", "bool"} => ~e.unq)
   \o F("unquoted-decodes-to-itself", (e.decoded = "str" /\ ~e.q /\ ~e.dt) => e.dstr = e.s)
+  \o F("decoder-unquoted-but-predicate-refuses", (e.decoded = "str" /\ ~e.q /\ ~e.dt /\ ~e.ddt) => e.unq)
+  \o F("predicate-disagrees-with-decoder", (e.q <=> e.dq) /\ (e.nd <=> e.dnd) /\ (e.dec <=> e.ddec) /\ (e.dt <=> e.ddt))
   \o F("encoder-unquoted-not-identical", e.enc = "unquoted" => (e.decoded = "str" /\ ~e.q /\ e.dstr = e.s))
   \o F("encoder-quoted-differs", e.enc = "quoted" => e.redec \in {"same", "folded-same"})
   \o F("ref-class", ref = "unspec" \/ ref = CodeClass(e))
